@@ -126,10 +126,10 @@ func (e *Engine) callFunction(f *frame, fn *ssa.Function, args []Val, bindings [
 				}
 				return e.boolVal(e.X.Not(e.X.Eq(refs[0], refs[1])))
 			}
-		case "verifSnap":
+		case "verifSnap", "verifSnapPtrs":
 			if e.isSpecFunc(fn) {
 				ref := e.snapshotBytes(f.st, args[0])
-				return Val{T: args[0].T, C: []*smt.Term{ref, e.X.Const(0, 64), args[0].ln(), args[0].ln()}, Bound: args[0].Bound}
+				return Val{T: args[0].T, C: []*smt.Term{ref, args[0].off(), args[0].ln(), args[0].ln()}, Bound: args[0].Bound}
 			}
 		}
 	}
@@ -257,6 +257,7 @@ func (e *Engine) useContract(f *frame, fc *FnContract, args []Val, pos token.Pos
 	// allocation counter may have advanced
 	na := X.Fresh("alloc", RefSort)
 	X.FreshBase[na.ID()] = true
+	X.SetAllocLB(na, f.st.Alloc)
 	e.assume(X.And(X.Ule(f.st.Alloc, na), X.Ule(na, X.Const(0x07ffffff, 32)))) // stated assumption: fewer than 2^27 allocations
 	f.st.Alloc = na
 	rt := resultType(fc.Fn.Signature)
@@ -737,7 +738,8 @@ func (e *Engine) copyBuiltin(f *frame, x *ssa.Call, args []Val) Val {
 		// memmove as an array comprehension: nd[j] = doff <= j < doff+n ? src[soff+(j-doff)] : dst[j]
 		_ = bound
 		j := X.BVar("cj", IntSort)
-		inr := X.And(X.Ule(dst.off(), j), X.Ult(j, X.BVAdd(dst.off(), n)))
+		// j lies in [dst.off, dst.off+n): stated relative to the slice start, which lets index sums cancel
+		inr := X.Ult(X.BVSub(j, dst.off()), n)
 		nd := X.Lambda(j, X.Ite(inr, X.Select(sArr, X.BVAdd(src.off(), X.BVSub(j, dst.off()))), X.Select(dArr, j)))
 		e.setHeap(f.st, key, X.Store(h, dst.ref(), nd))
 	}
